@@ -5,10 +5,8 @@ CONSTANTS
   Env = "behaved"
   SupPar <- SupParDef
   ActPar <- ActParDef
-  MaxReady = 1
+  MaxReady = 0
 INIT Init
 NEXT Next
 CHECK_DEADLOCK FALSE
-INVARIANT ReachStopWork
-INVARIANT ReachExecWork
 INVARIANT ReachEarly
